@@ -235,13 +235,13 @@ func TestVerifC13Filters(t *testing.T) {
 				vf.Class("environment-panic kind=" + kindName)
 				return true
 			}
-			key := vfKey(kindName, site, text)
+			key := vfKey2(kindName, site, text)
 			vfReport(vf, rt, key, fmt.Sprintf("%s panicked during %s: %s\nspec accepted by filters.NewSpec:\n%s%s", kindName, phase, text, spec.YAMLConfig(), extra))
 			return true
 		}
 
 		f := kind.CreateInstance(spec)
-		if p, txt, site := vfRecover(func() { f.Init() }); p {
+		if p, txt, site, _ := vfRecoverRoot(func() { f.Init() }); p {
 			vf.Case(len(g.present) > 0, "init|"+kindName+"|"+strings.Join(g.Present(), ",")+"|"+strings.Join(g.Bounds(), ","), nil)
 			fail("Init", txt, site, "")
 			return
@@ -273,7 +273,7 @@ func TestVerifC13Filters(t *testing.T) {
 				ctx, desc, class = c, r.String(), r.Class()
 			}
 			var res string
-			p, txt, site := vfRecover(func() { res = cur.Handle(ctx) })
+			p, txt, site, _ := vfRecoverRoot(func() { res = cur.Handle(ctx) })
 			if p {
 				vf.Case(len(g.present) > 0, "handle|"+kindName+"|"+strings.Join(g.Present(), ",")+"|"+strings.Join(g.Bounds(), ",")+"|"+class, nil)
 				fail("Handle", txt, site, "\nrequest: "+desc)
@@ -285,11 +285,11 @@ func TestVerifC13Filters(t *testing.T) {
 			if res != "" && !vfIn(res, kind.Results) {
 				vf.Class("ambiguous-unregistered-result")
 			}
-			if p, txt, site := vfRecover(func() { vfDrain(ctx) }); p {
+			if p, txt, site, _ := vfRecoverRoot(func() { vfDrain(ctx) }); p {
 				fail("response delivery / Finish", txt, site, "\nrequest: "+desc)
 				return
 			}
-			if p, txt, site := vfRecover(func() { _ = cur.Status() }); p {
+			if p, txt, site, _ := vfRecoverRoot(func() { _ = cur.Status() }); p {
 				fail("Status", txt, site, "")
 				return
 			}
@@ -300,7 +300,7 @@ func TestVerifC13Filters(t *testing.T) {
 					rt.Fatalf("VF-INCONCLUSIVE the same YAML was accepted and then rejected: %v", err)
 				}
 				nf := kind.CreateInstance(spec2)
-				if p, txt, site := vfRecover(func() { nf.Inherit(cur) }); p {
+				if p, txt, site, _ := vfRecoverRoot(func() { nf.Inherit(cur) }); p {
 					fail("Inherit", txt, site, "")
 					return
 				}
@@ -308,14 +308,14 @@ func TestVerifC13Filters(t *testing.T) {
 				old := cur
 				cur = nf
 				f = nf
-				if p, txt, site := vfRecover(func() { old.Close() }); p {
+				if p, txt, site, _ := vfRecoverRoot(func() { old.Close() }); p {
 					fail("Close (previous generation)", txt, site, "")
 					return
 				}
 			}
 		}
 		closed = true
-		if p, txt, site := vfRecover(func() { f.Close() }); p {
+		if p, txt, site, _ := vfRecoverRoot(func() { f.Close() }); p {
 			fail("Close", txt, site, "")
 			return
 		}
